@@ -369,6 +369,15 @@ impl TaskRun {
                     for u in us {
                         out.push(format!("task {} {}", u.as_u128(), fmt_view(&all[u])));
                     }
+                    // the cached map (what Task objects carry) must be the fresh one
+                    let dmc = block_on(self.replica.dependency_map(false)).unwrap();
+                    let mut cedges = Vec::new();
+                    for a in all.keys() {
+                        for b in dmc.dependencies(*a) {
+                            cedges.push(format!("{}>{}", a.as_u128(), b.as_u128()));
+                        }
+                    }
+                    out.push(format!("depmap-cached {}", fmt_list(cedges)));
                     let dm = block_on(self.replica.dependency_map(true)).unwrap();
                     let mut edges = Vec::new();
                     for a in all.keys() {
@@ -421,6 +430,7 @@ impl TaskRun {
             "dep_00000000-0000-0000-0000-000000000002", "dep_00000000000000000000000000000003", "dep_x",
             "dep_{00000000-0000-0000-0000-000000000004}", "dep_urn:uuid:00000000-0000-0000-0000-000000000001", "dep_",
             "uda", "github.id", "k", "",
+            "tag_aéééééééééééééééééééééééééééééééééééééééé x", "tag_ééééééééééééééééééééééééééééééééééééééééé:y",
         ];
         let vals: Vec<String> = vec![
             "".into(), "0".into(), "-1".into(), "+5".into(), " 7".into(), "1e3".into(), "9223372036854775807".into(),
